@@ -79,8 +79,12 @@ def rgfa(rng, max_ref=2, max_ref_segs=6, max_hap=3, maxlen=6, extra_links=True, 
         g.segs.append(dict(id=i, seq=seq, SN=c, SO=so, SR=r))
         return i
 
+    # stable sequence names with a '-' (valid; the interval syntax CONTIG:a-b only splits after the ':'): own PRNG stream
+    dash = QUIRK_RNG is not None and QUIRK_RNG.random() < 0.15
+    if dash:
+        QUIRKS["contig-names-with-dash"] = QUIRKS.get("contig-names-with-dash", 0) + 1
     for c in range(rng.randint(1, max_ref)):
-        name = "chr%d" % (c + 1)
+        name = ("chr%d-v2" if dash else "chr%d") % (c + 1)
         so = 0
         idl = []
         for _ in range(rng.randint(min_ref_segs, max_ref_segs)):
@@ -90,7 +94,7 @@ def rgfa(rng, max_ref=2, max_ref_segs=6, max_hap=3, maxlen=6, extra_links=True, 
         for a, b in zip(idl, idl[1:]):
             g.links.append((a, "+", b, "+", 0, ()))
     for h in range(rng.randint(0, max_hap)):
-        name = "hap%d" % (h + 1)
+        name = ("hap%d-b" if dash else "hap%d") % (h + 1)
         so = rng.randint(0, 50)
         r = rng.randint(1, 5)
         for _ in range(rng.randint(1, 3)):
